@@ -554,7 +554,7 @@ func c19keys(c *core.Ctx) {
 
 func C19(c *core.Ctx) {
 	c19keys(c)
-	c.Rule = "generated schemas (every built-in leaf type, leaf-lists, containers, keyed lists, choices, nodes of an imported module's grouping incl. an identityref, a leaf added by augment into that grouping's container) × conforming trees whose strings cover markup, quotes, CDATA terminators, leading/trailing/inner white space, tab/CR/LF, non-ASCII × writers {WriteXMLDoc compact, WriteXMLDoc pretty, WriteXML (streaming XMLWtr), one XMLWtr reused for every document}: (i) output parsed by encoding/xml in strict mode as one root element and compared with the expected element tree (names, namespaces, text), (ii) output compared byte for byte with the Lean writer models (tree / stream / pretty), (iii) ReadXMLDoc + UpsertFrom into a fresh reference store compared with the original tree and with the Lean reader model, as written and after a sibling interleaving that keeps the order of same-named elements, with same-named elements of a foreign namespace inserted, and with all namespaces dropped, (iv) patch/xml EscapeText against the Lean escaper on the string pool and random strings. non-trivial = tree with ≥1 list entry or nested container; distinct by (schema, tree, writer, variant)"
+	c.Rule = "generated schemas (every built-in leaf type, leaf-lists, containers, keyed lists, choices, nodes of an imported module's grouping incl. an identityref, a leaf added by augment into that grouping's container) × conforming trees whose strings cover markup, quotes, CDATA terminators, leading/trailing/inner white space, tab/CR/LF, non-ASCII × writers {WriteXMLDoc compact, WriteXMLDoc pretty, WriteXML (streaming XMLWtr), one XMLWtr reused for every document}: (i) output parsed by encoding/xml in strict mode as one root element and compared with the expected element tree (names, namespaces, text), (ii) output compared byte for byte with the Lean writer models (tree / stream / pretty), (iii) ReadXMLDoc + UpsertFrom into a fresh reference store compared with the original tree and with the Lean reader model, as written and after a sibling interleaving that keeps the order of same-named elements, with same-named elements of a foreign namespace inserted, and with all namespaces dropped, (iv) patch/xml EscapeText against the Lean escaper on the string pool and random strings; directed: a tree with two- and three-component keys and dotted / dashed node names under a namespace that needs escaping, through three writers, read back and every entry addressed by key; WriteXML = WriteXMLDoc = one well-formed element for seven start selections. non-trivial = tree with ≥1 list entry or nested container; distinct by (schema, tree, writer, variant)"
 	c.Assumptions = append(c.Assumptions,
 		"encoding/xml (Strict) of the Go standard library is the XML 1.0 well-formedness oracle on the byte level; the Lean theorems are on the token level plus the character-data codec",
 		"strings are drawn from the characters a YANG string may hold (RFC 7950 §9.4), which are the characters XML 1.0 can carry",
